@@ -100,6 +100,9 @@ pub enum Event {
     ClearBuf { node: usize, actor: usize, v0: u64, v1: u64 },
     ClearAll { node: usize },
     Sync { client: usize, server: usize, faults: SyncFaults },
+    /// one round of the production sync client (`parallel_sync`) of `client` towards `servers`
+    /// over the nodes' real QUIC endpoints; the servers answer through `serve_sync`
+    WireSync { client: usize, servers: Vec<usize> },
     /// sim re-cuts the dense reference copy of (origin, version) at these seq boundaries
     Recut {
         origin: usize,
@@ -130,6 +133,7 @@ impl Event {
             Event::ClearBuf { .. } => "ClearBuf",
             Event::ClearAll { .. } => "ClearAll",
             Event::Sync { .. } => "Sync",
+            Event::WireSync { .. } => "WireSync",
             Event::Recut { .. } => "Recut",
             Event::Drop { .. } => "Drop",
             Event::Crash { .. } => "Crash",
